@@ -541,6 +541,41 @@ RULE_EXTRA8 = {
 for _pid, _x in RULE_EXTRA8.items():
     PROPS[_pid]["rule"] = PROPS[_pid]["rule"] + _x
 
+# Workloads added against the ninth wave (DESIGN 9.5).
+RULE_EXTRA9 = {
+    "C01": "; section 'reader-kinds' (bufio.Reader, bytes.Buffer, net.Pipe, os.Pipe: earlier messages re-compared after later reads); preparation under Setup",
+    "C02": "; Get/Contains bound as method values before the decode; receivers moved by value after an earlier decode",
+    "C03": "; by-value copies that are reset, or grown beyond the shared capacity and rebuilt: the original is unchanged",
+    "C04": "; nil keys; the checker through Message.Check (value, pointer, behind a passing checker); signed messages grown beyond capacity / restored from JSON",
+    "C05": "; formatting, Equal and CloneTo-inside-ForEach before the check (message unchanged, clone gets the same verdict)",
+    "C06": "; first-use variants in their own process (first carrier of each default ERROR-CODE reused); setters/getters bound as method values before the fields are set",
+    "C08": "; GobDecode among the copying entry points",
+    "C09": "; codes formatted between uses; refusal after FINGERPRINT on a message assembled from exported fields",
+    "C10": "; the all-zero id in every model history; Do across 10.6 s of wall-clock time on a standing clock",
+    "C11": "; the clock reads exactly time.Time{} at Start; a tick at the instant of Start",
+    "C12": "; section 'real-connections' (framing wrapper around a UDP socket, net.Pipe; clocks off the wall clock)",
+    "C13": "; Process messages whose raw header carries a neighbour's id",
+    "C14": "; model ids that collide under prefix keys and XOR folds",
+    "C15": "; nil / empty messages after Close; live heap objects after 4 x 3000 create-use-close cycles (own process)",
+    "C16": "; first-use variants in their own process (NewSchemeType / NewProtoType / String / IsSecure / a retransmitting client first, then port-less URIs with hosts up to 2100 bytes)",
+    "C17": "; Scheme and Proto values -9..12; URIs formatted through fmt (value, pointer, slice element, Stringer)",
+    "C18": "; chunks through io.Copy (last bytes together with EOF / an error), io.WriteString, strings.Reader",
+    "C19": "; first-use variants in their own process; every wire value through Decode; all types through encoding/gob and encoding/json",
+    "C20": "; first-use variants in their own process (SHA-256 pool, long-term key, decode, URI first); decode of a message embedded in a DATA attribute",
+}
+for _pid, _x in RULE_EXTRA9.items():
+    PROPS[_pid]["rule"] = PROPS[_pid]["rule"] + _x
+
+PROPS["C15"]["assumptions"] = PROPS["C15"]["assumptions"] + [
+    "heap-object leak check: growth of live heap objects by 3000 or more in each of three rounds of 3000 closed clients is a leak (unchanged tree: below 100); the harness module declares go 1.20, so timers that were not stopped stay in the runtime's heap",
+]
+PROPS["C12"]["assumptions"] = PROPS["C12"]["assumptions"] + [
+    "real-connections: three consecutive request/response exchanges over the loopback interface (4 s each) all lost is taken for the client's doing",
+]
+PROPS["C10"]["assumptions"] = PROPS["C10"]["assumptions"] + [
+    "Do-outlasts-wall-clock waits 10.6 s of wall-clock time as part of the workload (the verdict is 'Do had not returned', decided by the ledger)",
+]
+
 PROPS["C20"]["assumptions"] = PROPS["C20"]["assumptions"] + [
     "long runs: a slice of 4096 checks with fewer than 4 mallocs is attributed to the runtime (interface-assertion cache, pool victim rotation), 4 or more to the library; "
     "the concurrent run tolerates 64 objects (goroutine start-up) and calls 65..2000 inconclusive",
